@@ -46,6 +46,17 @@ Subset (everything else raises ValueError / KeyError -- nothing is ever silently
                 variables first assigned inside a branch are dropped afterwards (a later read is
                 rejected).  An `if` that assigns no previously defined variable is rejected.
   return e      only as the last statement of the function: `pure e`.
+  EXTENSIONS used for `HashedPartitioner.partition` (harness/consts/partgen.py):
+  'ints' parameters   a Python list of ints: Lean `List Int`; `len(p)` is `p.length`; `p[e]` is allowed
+                only as the WHOLE returned expression (`return p[e]`): `let elemN ← p[e]?; pure elemN`,
+                and the term's result type is then `Option Int`.  (`e` is a non-negative int here, so
+                Python's negative indexing cannot occur; out of range = IndexError = `none`.)
+  x % e, x // e with a NON-literal divisor e: hoisted as `let divN ← (if e = 0 then none else some e)`
+                in front of the statement (`none` = ZeroDivisionError), the operation then uses divN.
+  opaque calls  the caller may declare `opaque={"<source text of a call>": "<param>"}`: that call
+                expression (compared as `ast.unparse` text) is replaced by the named 'nat' parameter of
+                the generated term (its value is an input of the term; the tie of the callee to the
+                model is made elsewhere).  `signature=[...]` states the Python parameter names expected.
   leading docstring: skipped.  Leading guard, recognised as a fixed pattern and skipped:
                 `if not isinstance(<bytes param>, bytearray): raise TypeError(...)`
                 (the input type `List UInt8` IS the bytearray precondition; the TypeError path is
@@ -92,24 +103,30 @@ def _nonneg_int(node):
 
 
 class Translator:
-    def __init__(self, func, params):
+    def __init__(self, func, params, signature=None, opaque=None):
         if not isinstance(func, ast.FunctionDef):
             raise ValueError("pure_translate: not a plain function definition")
         self.func = func
         self.params = list(params)
         self.ntmp = 0
         self.skipped = []
+        self.opaque = dict(opaque or {})
+        self.ret_int = False
         a = func.args
         if a.vararg or a.kwarg or a.kwonlyargs or a.posonlyargs:
             _bad(func, "unsupported parameter kinds")
         names = [x.arg for x in a.args]
-        if names != [p for p, _ in self.params]:
-            raise KeyError("pure_translate: parameters of %s are %s, expected %s" % (func.name, names, [p for p, _ in self.params]))
+        want = list(signature) if signature is not None else [p for p, _ in self.params]
+        if names != want:
+            raise KeyError("pure_translate: parameters of %s are %s, expected %s" % (func.name, names, want))
         if func.decorator_list:
             _bad(func, "decorators are not supported")
         for p, ty in self.params:
-            if ty not in ("nat", "bytes"):
+            if ty not in ("nat", "bytes", "ints"):
                 raise ValueError("pure_translate: unknown parameter type %s" % ty)
+        for v in self.opaque.values():
+            if dict(self.params).get(v) != "nat":
+                raise ValueError("pure_translate: opaque call must map to a 'nat' parameter")
         # every identifier of the function must be usable as a Lean identifier and must not collide
         # with the names of hoisted lookups
         for n in ast.walk(func):
@@ -118,8 +135,9 @@ class Translator:
                 continue
             if not (ident.isascii() and ident.isidentifier()) or ident in LEAN_RESERVED or ident.startswith("_"):
                 raise ValueError("pure_translate: identifier %r cannot be used in the generated Lean term" % ident)
-            if ident.startswith(TMP) and ident[len(TMP):].isdigit():
-                raise ValueError("pure_translate: identifier %r collides with generated names" % ident)
+            for pfx in (TMP, "div", "elem"):
+                if ident.startswith(pfx) and ident[len(pfx):].isdigit():
+                    raise ValueError("pure_translate: identifier %r collides with generated names" % ident)
 
     # ---- expressions: return a Lean string; lookups are appended to `pre` as monadic binds ----
     def atom(self, node, env, pre):
@@ -147,17 +165,29 @@ class Translator:
             if op is None:
                 _bad(node, "operator not in the non-negative integer subset (-, /, **, @ are rejected)")
             if isinstance(node.op, (ast.FloorDiv, ast.Mod)):
-                if not (_nonneg_int(node.right) and node.right.value > 0):
-                    _bad(node, "// and % are supported for a positive literal divisor only")
+                if _nonneg_int(node.right):
+                    if node.right.value == 0:
+                        _bad(node, "division by the literal 0")
+                else:
+                    # non-literal divisor: ZeroDivisionError = none, checked before the operation
+                    l = self.atom(node.left, env, pre)
+                    r = self.expr(node.right, env, pre)
+                    name = "div%d" % self.ntmp
+                    self.ntmp += 1
+                    pre.append("let %s ← (if %s = 0 then none else some %s)" % (name, self.atom_str(r), self.atom_str(r)))
+                    return "%s %s %s" % (l, op, name)
             l = self.atom(node.left, env, pre)
             r = self.atom(node.right, env, pre)
             return "%s %s %s" % (l, op, r)
         if isinstance(node, ast.Call):
+            txt = ast.unparse(node)
+            if txt in self.opaque:
+                return self.opaque[txt]
             if isinstance(node.func, ast.Name) and node.func.id == "len" and len(node.args) == 1 and not node.keywords:
                 a = node.args[0]
-                if isinstance(a, ast.Name) and env.get(a.id) == "bytes":
+                if isinstance(a, ast.Name) and env.get(a.id) in ("bytes", "ints"):
                     return "%s.length" % a.id
-            _bad(node, "only len(<bytes parameter>) calls are supported")
+            _bad(node, "only len(<bytes/ints parameter>) calls (and declared opaque calls) are supported")
         if isinstance(node, ast.Subscript):
             v = node.value
             if not (isinstance(v, ast.Name) and env.get(v.id) == "bytes"):
@@ -304,7 +334,19 @@ class Translator:
         env = dict(self.params)
         lines = self.block(body[:-1], env)
         pre = []
-        e = self.expr(body[-1].value, env, pre)
+        rv = body[-1].value
+        if isinstance(rv, ast.Subscript) and isinstance(rv.value, ast.Name) and env.get(rv.value.id) == "ints":
+            # `return p[e]` for a list of ints p: the only place an Int value may appear
+            if isinstance(rv.slice, (ast.Slice, ast.Tuple)):
+                _bad(rv, "slices are not supported")
+            idx = self.expr(rv.slice, env, pre)
+            name = "elem%d" % self.ntmp
+            self.ntmp += 1
+            pre.append("let %s ← %s[%s]?" % (name, rv.value.id, idx))
+            self.ret_int = True
+            e = name
+        else:
+            e = self.expr(rv, env, pre)
         lines += pre + ["pure %s" % self.atom_str(e)]
         head = "fun %s => do" % " ".join(p for p, _ in self.params)
         return head + "\n" + "\n".join("  " + l for l in lines)
@@ -314,13 +356,16 @@ class Translator:
         return s if s.replace("_", "a").replace(".", "a").isalnum() else "(" + s + ")"
 
 
-def lean_type(params):
-    return " → ".join({"nat": "Nat", "bytes": "List UInt8"}[ty] for _, ty in params) + " → Option Nat"
+def lean_type(params, ret_int=False):
+    return " → ".join({"nat": "Nat", "bytes": "List UInt8", "ints": "List Int"}[ty] for _, ty in params) + (
+        " → Option Int" if ret_int else " → Option Nat")
 
 
-def translate_function(func, params):
-    """func: ast.FunctionDef; params: [(name, 'nat'|'bytes')] -> (lean_type, lean_term)."""
-    return lean_type(params), Translator(func, params).translate()
+def translate_function(func, params, signature=None, opaque=None):
+    """func: ast.FunctionDef; params: [(name, 'nat'|'bytes'|'ints')] -> (lean_type, lean_term)."""
+    tr = Translator(func, params, signature=signature, opaque=opaque)
+    term = tr.translate()
+    return lean_type(params, tr.ret_int), term
 
 
 if __name__ == "__main__":
